@@ -91,7 +91,9 @@ def setup():
     unf = {pos[id(e)] for e in tok.unfiltered_extractors if id(e) in pos}
     foreign += [("unfiltered", repr(e.regex)[:40]) for e in tok.unfiltered_extractors if id(e) not in pos]
     img_cs, img_ci = record_maps(T)
-    _S.update(T=T, tok=tok, exts=exts, words=words, unf=unf, img_cs=img_cs, img_ci=img_ci, foreign=foreign)
+    import eyecite.models as M
+
+    _S.update(M=M, T=T, tok=tok, exts=exts, words=words, unf=unf, img_cs=img_cs, img_ci=img_ci, foreign=foreign)
     return _S
 
 
@@ -219,6 +221,133 @@ def replay(i, text):
     return {"regex_matches": m is not None, "selected_by_filter": selected, "token_streams_equal_on_sublist": same}
 
 
+# ---------------------------------------------------------------- sub-lists, symbolically (E2)
+class AbsAutomaton:
+    """pyahocorasick contract: iter(text) yields (end_index, value) for every added word that occurs in text."""
+
+    def __init__(self, h):
+        self.h, self.words = h, []
+
+    def add_word(self, w, value):
+        for i, (x, v) in enumerate(self.words):
+            if x == w:
+                self.words[i] = (w, value)
+                return False
+        self.words.append((w, value))
+        return True
+
+    def make_automaton(self):
+        pass
+
+    def __len__(self):
+        return len(self.words)
+
+    def iter(self, text):
+        if not self.words:
+            raise AttributeError("Not an Aho-Corasick automaton yet")
+        out = []
+        for w, v in self.words:
+            if self.h.occurs(w, text):
+                out.append((0, v))
+        return out
+
+
+class AbsText:
+    """the text, known only up to the transformations applied to it (translate / lower)."""
+
+    def __init__(self, ops=()):
+        self.ops = tuple(ops)
+
+    def lower(self):
+        return AbsText(self.ops + ("lower",))
+
+    def translate(self, table):
+        return AbsText(self.ops + ("translate",))
+
+
+class HSub(common.Harness):
+    """AhocorasickTokenizer.__post_init__ + get_extractors on an arbitrary list of <= N abstract extractors."""
+
+    def __init__(self, params):
+        super().__init__(params)
+        import ahocorasick
+
+        import eyecite.tokenizers as T
+
+        self.T = T
+        self.N = params["N"]
+        self.interp.stubs[ahocorasick.Automaton] = lambda *a, **k: AbsAutomaton(self)
+
+    def occurs(self, word, text):
+        import z3
+
+        key = (word, text.ops)
+        if key not in self.occ:
+            b = z3.Bool(f"occurs_{len(self.occ)}")
+            self.occ[key] = b
+        b = self.occ[key]
+        return self.eng.choose([b, z3.Not(b)]) == 0
+
+    def run(self):
+        import re
+
+        import z3
+
+        from vf.harness.c15 import AbsExtractor
+
+        eng, T = self.eng, self.T
+        self.occ = {}
+        n = eng.choose([z3.Int("n") == k for k in range(self.N + 1)])
+        exts = []
+        self.cfg = []
+        for i in range(n):
+            kind = eng.choose([z3.Int(f"kind{i}") == k for k in range(3)])  # no strings / case-sensitive / case-insensitive
+            word = ["wa", "wb"][eng.choose([z3.Int(f"word{i}") == k for k in range(2)])] if kind else None
+            # a case-insensitive extractor registers its strings lower-cased; give it an upper-case string
+            strings = [] if kind == 0 else [word if kind == 1 else word.upper()]
+            exts.append(AbsExtractor(f"E{i}", strings, 0 if kind < 2 else int(re.I), None))
+            self.cfg.append((kind, word))
+        tk = self.interp.instantiate(T.AhocorasickTokenizer, (), {"extractors": exts})
+        got = self.interp.call(T.AhocorasickTokenizer.get_extractors, (tk, AbsText()), {})
+        return exts, list(got)
+
+    def witness(self, m):
+        import z3
+
+        return {"extractors": self.cfg, "occurrences": {f"{w}@{'/'.join(ops) or 'text'}": (bool(z3.is_true(m.eval(b, model_completion=True))) if m is not None else None) for (w, ops), b in self.occ.items()}}
+
+    def describe(self, kind, out):
+        return self.witness(self.eng.path_model())
+
+    def judge(self, kind, out):
+        import z3
+
+        if kind == "exc":
+            return [self.check("C13:sublist:no_exception:" + type(out).__name__, False, self.witness)]
+        exts, got = out
+        # specification: in list order, the extractors without strings plus those one of whose registered words
+        # occurs in the (transformed) text.  Which transformation chain the code applies is its own business:
+        # a case-insensitive word is looked up lower-cased in SOME lower-casing transformation of the text.
+        want = []
+        for e, (kind_, word) in zip(exts, self.cfg):
+            if kind_ == 0:
+                want.append(e)
+                continue
+            hit = False
+            for (w, ops), b in self.occ.items():
+                if w == word and ((kind_ == 1 and ops == ()) or (kind_ == 2 and "lower" in ops)):
+                    if self.eng.implied(b):
+                        hit = True
+            if hit:
+                want.append(e)
+        ok = len(want) == len(got) and all(a is b for a, b in zip(want, got))
+        return [self.check("C13:sublist:selected_extractors_are_exactly_those_whose_word_occurs_in_list_order", z3.BoolVal(ok), self.witness)]
+
+
+def make(params):
+    return HSub(params)
+
+
 REGRESSION_TEXTS = ["Foo, ſupra, at 5", "İd. at 5", "ıd. at 5", "ſee 1 U.S. 1", "Foo K. Bar, cert. denied", "1 U.S. 1", "Id. at 5", "See Foo v. Bar, 1 F.2d 2, 3 (1999); id. at 4; Foo, supra, at 5."]
 
 
@@ -330,6 +459,45 @@ def check(rep):
                 rep.violation(f"AhocorasickTokenizer(extractors=<{len(L)} extractors>) selects extractors outside its list: token stream differs from Tokenizer on {text!r}", {"kind": "sublist", "n": len(L), "text": text})
             else:
                 rep.inconc("filter references extractors outside the sub-list but the probe text did not expose a difference")
+    # the same for arbitrary lists, symbolically
+    agg = common.explore_split("vf.harness.c13", {"N": 2 if rep.tier == "quick" else 3}, depth=4)
+    rep.merge_explore("sublists_symbolic", agg)
+    n_ob = sum(agg["verdicts"].values())
+    n_ok = sum(v for k, v in agg["verdicts"].items() if k.endswith(":valid"))
+    rep.oblige(n_ok)
+    rep.oblige(n_ob - n_ok, ok=False)
+    rep.bounds.append(f"sub-lists: every list of <= {2 if rep.tier == 'quick' else 3} abstract extractors (no strings / case-sensitive / case-insensitive, two filter words), every occurrence pattern")
+    for f in agg["findings"]:
+        if f["verdict"] != "cex":
+            rep.inconc(f"{f['clause']}: solver verdict {f['verdict']}")
+            continue
+        # replay with real extractors of the same shape
+        import re as _re
+
+        w = f["witness"]
+        real = []
+        for j, (kind_, word) in enumerate(w["extractors"]):
+            rx_ = "(%s)" % (word if word else "zz%d" % j)
+            real.append(st["M"].TokenExtractor(rx_, st["M"].IdToken.from_match, flags=_re.I if kind_ == 2 else 0, strings=[] if kind_ == 0 else [word if kind_ == 1 else word.upper()]))
+        texts = ["wa wb", "WA", "wb", "", "zz0 zz1 wa", "Wb wa"]
+        rep.replays += 1
+        hit = None
+        for t in texts:
+            try:
+                a = T.AhocorasickTokenizer(extractors=list(real)).tokenize(t)
+                a = ([str(x) for x in a[0]], [(type(x).__name__, x.start, x.end) for _, x in a[1]])
+            except Exception as ex:
+                a = ("raised " + type(ex).__name__,)
+            b = T.Tokenizer(extractors=list(real)).tokenize(t)
+            b = ([str(x) for x in b[0]], [(type(x).__name__, x.start, x.end) for _, x in b[1]])
+            if a != b:
+                hit = (t, a, b)
+                break
+        if hit:
+            rep.violation(f"AhocorasickTokenizer and Tokenizer differ on {hit[0]!r} for an extractor list of shape {w['extractors']}: {hit[1]} vs {hit[2]}", {"kind": "sublist_model", "witness": w})
+            break
+        rep.spurious += 1
+        rep.inconc(f"sub-list model did not reproduce: {w}")
     # regression witnesses: filtered vs reference tokenizer on the shipped list
     ref = T.Tokenizer()
     for tx in REGRESSION_TEXTS:
